@@ -8,6 +8,17 @@ TRUST = ["Eigen dense self-adjoint eigen-solver, LU and MatrixFunctions::exp use
          "held on the executions observed only; nothing is claimed for inputs/schedules that were not run"]
 
 VH = {
+    "C08": dict(drivers=[dict(driver="partinv", flavours=P2, timeout=240)],
+                floor=dict(quick=30, thorough=300),
+                rule="cases = one generated model computed under 2-4 partitions (default analysis, symmetries ignored, 1-2 custom sets of confirmed-conserved integer-linear integrals of motion); all pipelines run in full; "
+                     "pairwise monitors against the first partition: sorted spectrum, ground energy, <E>, <N>, <n_i>, <n_i n_j>, <c+_a c_b>, G_ij (4 Matsubara numbers + tau) for all diagonal and 6 off-diagonal pairs, "
+                     "susceptibility (3 bosonic numbers + tau) for 5 operator pairs, chi4 for 3 quadruples x 6 triples when N<=3(4); tolerances = sum of both runs' documented-reduction allowances; "
+                     "non-trivial = the partitions have different block counts and N>=2; distinct by model + partition set"),
+    "C19": dict(drivers=[dict(driver="trunc", flavours=P2, timeout=120)],
+                floor=dict(quick=40, thorough=400),
+                rule="cases = generated model x beta in [1,200] x eps in {0,1e-14,1e-10,1e-6,1e-3,1e-2,0.3}; one pipeline, observables built twice: with the untruncated DensityMatrix and with a copy after truncateBlocks(eps); "
+                     "monitors: discarded block => all its weights <= eps; |dG|<=2 eps dim/|w_n| (and 2 eps dim in tau), |d<c+c>|<=eps dim, |d chi(iW)|<=eps dim max(1/|W|,beta), |d chi(tau)|<=eps dim, |d chi4|<=eps dim^2 beta^3; eps=0 => identical; "
+                     "non-trivial = >=2 blocks and (>=1 block discarded or eps=0); distinct by model+eps"),
     "C13": dict(drivers=[dict(driver="g2cont", flavours=P2, timeout=120)],
                 floor=dict(quick=40, thorough=400),
                 rule="cases = random call histories (3-12 calls) on one TwoParticleGFContainer over a small generated model (N=2..3 quick, ..4 thorough): prepareAll(random index sets, repeated), "
@@ -73,6 +84,14 @@ HOOK_COMMITS = []
 NOT_YET = {}
 
 INFO = {
+    "C08": dict(technique="runtime differential monitor: the same model under several accepted symmetry partitions, all observables compared pairwise",
+                level_text="The full pipeline of the real library is run under default / ignored / custom partitions and every observable is compared pairwise with tolerances derived from the documented reductions in each run's own eigenbasis; held on what was run.",
+                level_note="Custom partitions are restricted to integer-linear integrals of motion confirmed conserved by the harness (hostile candidates are C07's subject); dropped-term effects in the susceptibility are C14's subject and are allowed literally here.",
+                design_ref="DESIGN.md section 3, C08"),
+    "C19": dict(technique="runtime differential monitor: observables with truncated vs untruncated density matrix against explicit eps-proportional bounds; retain rule from the weights",
+                level_text="The retain rule and the analytic bounds of DESIGN.md C19 are evaluated on the real objects for generated models up to beta=200 and eps up to 0.3 (most blocks discarded); held on what was run.",
+                level_note="Weights are read from the library's DensityMatrix (their correctness is C09's subject); N <= 4 quick / 6 thorough, chi4 for N <= 3(4).",
+                design_ref="DESIGN.md section 3, C19"),
     "C13": dict(technique="runtime history monitor: random prepareAll/computeAll/lookup/evaluate sequences on TwoParticleGFContainer vs stand-alone TwoParticleGF objects and the exchange identities",
                 level_text="Hundreds (quick) / thousands (thorough) of random request histories are driven through the real container; each evaluable entry (stored or alias) is compared with an independently constructed two-particle Green's function and with its exchange partners; held on what was run.",
                 level_note="Single-rank histories (multi-rank container behaviour is C06); the reference objects use the same library class for one quadruple at a time (its correctness is C02's subject).",
